@@ -13,10 +13,13 @@
 package main
 
 import (
+	"bytes"
 	"fmt"
 	"math"
 	"math/big"
 	"strings"
+	"sync"
+	"time"
 
 	"github.com/golang/geo/r3"
 	"github.com/golang/geo/s1"
@@ -1263,6 +1266,250 @@ func tangentBandLoops(c *vkit.Collector, rng *vkit.Rng, want int) []lcase {
 	return out
 }
 
+// ---------- Encode -> Decode images ----------
+//
+// A decoded loop/polygon is a second way of constructing the same shape (the compressed format
+// recomputes the bound with ContainsPoint while the object is half built).  Every containment
+// path on the decoded object, before AND after its index exists, must give the brute-force
+// parity of the ORIGINAL.
+func runCodec(c *vkit.Collector, rng *vkit.Rng, k int) {
+	centres := []s2.Point{raw(0, 0, 1), raw(0, 0, -1), s2.OriginPoint(), raw(-1, 0, 0), pt(-1, 1e-9, 0.3), pt(0.02, -0.01, 1), pt(0.01, 0.03, -1), randPoint(rng), pt(1, 1, 1)}
+	ctr := centres[k%len(centres)]
+	n := []int{8, 12, 20, 31, 33, 40, 63, 64, 100}[rng.Intn(9)]
+	r := []float64{0.003, 0.05, 0.3, 1.0}[rng.Intn(4)]
+	snapped := k%4 != 3 // cell-centre vertices: Polygon.Encode takes the compressed format
+	mkPts := func(m int, rr float64) []s2.Point {
+		v := starPoints(ctr, m, func(int) float64 { return rr })
+		if snapped {
+			v = snap(v, 30)
+		}
+		return v
+	}
+	loopsPts := [][]s2.Point{mkPts(n, r)}
+	if rng.Bool() && n >= 12 { // with a hole
+		loopsPts = append(loopsPts, mkPts(n/2, r/2))
+	}
+	for _, lp := range loopsPts {
+		if !distinct(lp) {
+			return
+		}
+	}
+	var ls []*s2.Loop
+	for _, lp := range loopsPts {
+		ls = append(ls, s2.LoopFromPoints(clone(lp)))
+	}
+	P := s2.PolygonFromLoops(ls)
+	if P.NumLoops() != len(loopsPts) {
+		return
+	}
+	var buf bytes.Buffer
+	if err := P.Encode(&buf); err != nil {
+		return
+	}
+	enc := buf.Bytes()
+	format := "lossless"
+	if len(enc) > 0 && enc[0] == 4 {
+		format = "compressed"
+	}
+	c.Class(fmt.Sprintf("codec:polygon/%s/n%s64", format, map[bool]string{true: "<", false: ">="}[n < 64]))
+	decode := func() *s2.Polygon {
+		D := &s2.Polygon{}
+		if err := D.Decode(bytes.NewReader(enc)); err != nil {
+			return nil
+		}
+		return D
+	}
+	rep := func(p s2.Point, extra string) map[string]interface{} {
+		var lb [][][]string
+		for _, lp := range loopsPts {
+			lb = append(lb, bitsOf(lp))
+		}
+		return map[string]interface{}{"type": "codec", "format": format, "loops_bits": lb, "p_bits": bits(p), "p": []float64{p.X, p.Y, p.Z}, "what": extra}
+	}
+	want := func(p s2.Point) bool { // brute-force parity of the ORIGINAL
+		b := false
+		for j := 0; j < P.NumLoops(); j++ {
+			b = b != P.Loop(j).VerifC04BruteForceContainsPoint(p)
+		}
+		return b
+	}
+	probes := []s2.Point{raw(0, 0, 1), raw(0, 0, -1), ctr, pt(1e-3, 2e-3, 1), pt(-2e-3, 1e-3, -1), pt(0.05, 0.02, 1), pt(0.03, -0.04, -1), s2.OriginPoint(), raw(-1, 0, 0)}
+	probes = append(probes, loopProbes(rng, lcase{"codec", loopsPts[0], &ctr}, nil)...)
+	if len(probes) > 60 {
+		probes = probes[:60]
+	}
+	// polygon: the first query on a freshly decoded object (nothing has built its index)
+	for pi, p := range probes {
+		if antipodal(p, s2.OriginPoint()) {
+			continue
+		}
+		w := want(p)
+		c.Eval(fmt.Sprintf("codec%d/%d", k, pi), true)
+		if pi < 12 {
+			if D := decode(); D == nil {
+				c.Violate("codec.Decode", "Decode of an encoded polygon fails", rep(p, "decode"))
+				return
+			} else if got := D.ContainsPoint(p); got != w {
+				c.Violate("Polygon.Decode.ContainsPoint.firstQuery", fmt.Sprintf("decoded polygon (%s), first query: ContainsPoint=%v, brute force of the original=%v", format, got, w), rep(p, "first query on a decoded polygon"))
+			}
+		}
+	}
+	D := decode()
+	if D == nil || D.NumLoops() != P.NumLoops() {
+		c.Violate("codec.Decode", "Decode of an encoded polygon fails or loses loops", rep(ctr, "decode"))
+		return
+	}
+	Dl := decode() // its loops are queried one by one, never the polygon
+	Dinv := decode()
+	Dinv.Invert()
+	for round := 0; round < 2; round++ { // before, then after index.Build()
+		when := []string{"beforeBuild", "afterBuild"}[round]
+		if round == 1 {
+			D.VerifC04Index().Build()
+			for j := 0; j < Dl.NumLoops(); j++ {
+				Dl.Loop(j).VerifC04Index().Build()
+			}
+		}
+		for _, p := range probes {
+			if antipodal(p, s2.OriginPoint()) {
+				continue
+			}
+			w := want(p)
+			c.Evals++
+			if got := D.ContainsPoint(p); got != w {
+				c.Violate("Polygon.Decode.ContainsPoint."+when, fmt.Sprintf("decoded polygon (%s) ContainsPoint=%v, brute force of the original=%v", format, got, w), rep(p, when))
+			}
+			if !D.VerifC04BoundContains(p) && w {
+				c.Violate("Polygon.Decode.bound", "bound of the decoded polygon misses a contained point", rep(p, "H-LATBOUND after decode"))
+			}
+			if Dinv.ContainsPoint(p) == w {
+				c.Violate("Polygon.Decode.Invert", "decoded polygon inverted: contains a point of the original / misses a point outside", rep(p, when))
+			}
+			for j := 0; j < Dl.NumLoops(); j++ {
+				lw := P.Loop(j).VerifC04BruteForceContainsPoint(p)
+				if got := Dl.Loop(j).ContainsPoint(p); got != lw {
+					c.Violate("Loop.Decode.ContainsPoint."+when, fmt.Sprintf("loop %d of the decoded polygon (%s) ContainsPoint=%v, brute force of the original loop=%v", j, format, got, lw), rep(p, when))
+				}
+				if !Dl.Loop(j).VerifC04BoundContains(p) && lw {
+					c.Violate("Loop.Decode.bound", "bound of a decoded loop misses a contained point", rep(p, "H-LATBOUND after decode"))
+				}
+				if Dl.Loop(j).ContainsOrigin() != P.Loop(j).ContainsOrigin() {
+					c.Violate("Loop.Decode.originInside", "originInside changed by Encode/Decode", rep(p, "originInside"))
+				}
+			}
+		}
+	}
+	// Loop.Encode / Loop.Decode (lossless format of a single loop)
+	var lb bytes.Buffer
+	L0 := s2.LoopFromPoints(clone(loopsPts[0]))
+	if err := L0.Encode(&lb); err == nil {
+		c.Class("codec:loop/lossless")
+		for pi, p := range probes {
+			if antipodal(p, s2.OriginPoint()) || pi > 20 {
+				continue
+			}
+			DL := &s2.Loop{}
+			if err := DL.Decode(bytes.NewReader(lb.Bytes())); err != nil {
+				c.Violate("codec.Decode", "Loop.Decode of an encoded loop fails", rep(p, "decode"))
+				break
+			}
+			lw := L0.VerifC04BruteForceContainsPoint(p)
+			c.Evals++
+			if got := DL.ContainsPoint(p); got != lw {
+				c.Violate("Loop.Decode.ContainsPoint.firstQuery", fmt.Sprintf("decoded loop, first query: ContainsPoint=%v, brute force of the original=%v", got, lw), rep(p, "first query on a decoded loop"))
+			}
+			DL.VerifC04Index().Build()
+			if got := DL.ContainsPoint(p); got != lw {
+				c.Violate("Loop.Decode.ContainsPoint.afterBuild", fmt.Sprintf("decoded loop after Build: ContainsPoint=%v, brute force of the original=%v", got, lw), rep(p, "after build"))
+			}
+		}
+	}
+}
+
+// ---------- concurrent first use of the index ----------
+//
+// "the same answer whichever evaluation path is taken": two goroutines make the first indexed
+// query at once (both see "not fresh"), the first builds the index, and a third query is
+// answered while the second one holds the lock for its (redundant) turn.  The interleaving is
+// made deterministic with the schedule points of maybeApplyUpdates / makeIndexCell.
+func runConcurrentFirstUse(c *vkit.Collector, rng *vkit.Rng, k int) {
+	ctr := randPoint(rng)
+	n := 40 + rng.Intn(60)
+	pts := starPoints(ctr, n, func(int) float64 { return 0.3 })
+	L := s2.LoopFromPoints(clone(pts))
+	Lref := s2.LoopFromPoints(clone(pts))
+	inner := starPoints(ctr, 5, func(int) float64 { return 0.1 }) // interior points
+	q1, q2, q3 := inner[0], inner[1], ctr
+	c.Class("concurrent:first-use(3 goroutines)")
+
+	var mu sync.Mutex
+	phase := 0 // 0: waiting for G2 at "before lock"; 1: G1 runs; 2: G2's turn
+	g2AtLock := make(chan struct{})
+	releaseG2 := make(chan struct{})
+	g2AtWrite := make(chan struct{})
+	releaseG2b := make(chan struct{})
+	idx := L.VerifC04Index()
+	s2.VerifSched = func(point int, i *s2.ShapeIndex) {
+		if i != idx {
+			return
+		}
+		mu.Lock()
+		ph := phase
+		switch {
+		case ph == 0 && point == s2.VerifPtBeforeLock:
+			phase = 1
+			mu.Unlock()
+			close(g2AtLock)
+			<-releaseG2
+			return
+		case ph == 2 && point == s2.VerifPtCellMapWrite:
+			phase = 3
+			mu.Unlock()
+			close(g2AtWrite)
+			<-releaseG2b
+			return
+		}
+		mu.Unlock()
+	}
+	defer func() { s2.VerifSched = nil }()
+
+	var a1, a2, a3 bool
+	g2done := make(chan struct{})
+	go func() { a2 = L.ContainsPoint(q2); close(g2done) }()
+	select {
+	case <-g2AtLock:
+	case <-time.After(5 * time.Second):
+		c.Violate("concurrent.hang", "second goroutine never reached the lock", map[string]interface{}{"type": "concurrent", "k": k})
+		return
+	}
+	a1 = L.ContainsPoint(q1) // G1: builds the index, marks it fresh
+	mu.Lock()
+	phase = 2
+	mu.Unlock()
+	close(releaseG2)
+	select {
+	case <-g2AtWrite: // G2 is rebuilding: the index is marked fresh while its cells are being rewritten
+		a3 = L.ContainsPoint(q3)
+		close(releaseG2b)
+		<-g2done
+	case <-g2done:
+		a3 = L.ContainsPoint(q3)
+	case <-time.After(5 * time.Second):
+		c.Violate("concurrent.hang", "second goroutine never finished", map[string]interface{}{"type": "concurrent", "k": k})
+		return
+	}
+	for i, x := range []struct {
+		got bool
+		p   s2.Point
+	}{{a1, q1}, {a2, q2}, {a3, q3}} {
+		c.Evals++
+		if w := Lref.VerifC04BruteForceContainsPoint(x.p); x.got != w {
+			c.Violate("Loop.ContainsPoint.concurrentFirstUse", fmt.Sprintf("goroutine %d of 3 (two simultaneous first queries, third query during the second one's turn): ContainsPoint=%v, brute force=%v", i+1, x.got, w),
+				map[string]interface{}{"type": "concurrent", "n": n, "vertices_bits": bitsOf(pts), "p_bits": bits(x.p), "goroutine": i + 1})
+		}
+	}
+}
+
 func run(c *vkit.Collector, rng *vkit.Rng, budget int) {
 	nLoops := 230 * budget
 	for k := 0; k < nLoops; k++ {
@@ -1281,6 +1528,12 @@ func run(c *vkit.Collector, rng *vkit.Rng, budget int) {
 	nPoly := 40 * budget
 	for k := 0; k < nPoly; k++ {
 		runPolygon(c, rng, k, k < 24)
+	}
+	for k := 0; k < 45*budget; k++ {
+		runCodec(c, rng, k)
+	}
+	for k := 0; k < 6*budget; k++ {
+		runConcurrentFirstUse(c, rng, k)
 	}
 	runTilings(c, rng, budget)
 }
